@@ -31,10 +31,10 @@ def landmarks(prog):
         L.linebuf = render(a0.children[0])
     else:
         L.linebuf = render(a0)
-    hb = [b for b in cfg.blocks.values() if b.term is L.loop]
-    if len(hb) != 1:
+    hid = cfg.loop_header(L.loop)
+    if hid is None:
         raise Inconclusive("read_file: loop header block not found")
-    L.header = hb[0].id
+    L.header = hid
     L.body_blocks = cfg.natural_loop(L.header)
     # store() calls inside the loop and the pending comment variables
     L.store_calls = [c for c in f.calls(STORE) if c.within(L.loop)]
